@@ -1,4 +1,74 @@
-import JV.Spec.Rfc8259
+/-
+  C02 — the JSON parser accepts exactly RFC 8259 and yields the specified value.
+
+  The reference against which the real parser is judged on every run is JV.Spec.Rfc8259.parseText, a
+  recursive-descent transcription of the RFC grammar (plus one production each for comments and
+  trailing commas, and a nesting limit). The real parser (json_parser.hpp, a 2000-line hand-written
+  state machine) is NOT modelled; its accept/reject decision and its value are compared with the
+  reference on every string of ≤ 3/4 tokens over a 29-token alphabet, on rendered+mutated documents,
+  on comment/comma placements in every gap, on nesting depth limit-1/limit/limit+1 and on wide
+  objects with duplicate names (see evidence).
+
+  Proved here, about the reference: its string production accepts exactly the UTF-8 encodings of
+  sequences of Unicode scalar values (no overlongs, no surrogates, nothing above U+10FFFF), and a
+  collection of grammar facts the property names (leading zeros, bare signs, control characters,
+  trailing commas, comments, nesting limit), each for all continuations where that makes sense.
+-/
+import JV.Proofs.Utf8
 namespace JV.Props.C02
-theorem placeholder : True := trivial
+open JV Spec.Rfc8259
+
+/-- the strings of the grammar are exactly the encodings of scalar-value sequences: soundness … -/
+theorem utf8_valid_of_scalars (cps : List Nat) (h : ∀ cp ∈ cps, IsScalar cp) : validUtf8 (encodeAll cps) = true :=
+  validUtf8_encodeAll cps h
+
+/-- … and completeness: whatever the validator accepts is such an encoding -/
+theorem utf8_scalars_of_valid (bs : Bytes) (h : validUtf8 bs = true) :
+    ∃ cps, (∀ cp ∈ cps, IsScalar cp) ∧ bs = encodeAll cps :=
+  validUtf8_decode bs.length bs (Nat.le_refl _) h
+
+/-- a number may not have a leading zero, whatever follows -/
+theorem no_leading_zero (d : Nat) (hd : isDigit d = true) (rest : Bytes) :
+    parseNumber (48 :: d :: rest) = some ([48], d :: rest) := by
+  have h1 : d ≠ 46 := by simp [isDigit] at hd; omega
+  have h2 : ¬ (d = 101 ∨ d = 69) := by simp [isDigit] at hd; omega
+  simp [parseNumber, h1, h2]
+
+/-- … so `0d…` is never a complete JSON text -/
+theorem leading_zero_rejected (fl : Flags) (d : Nat) (hd : isDigit d = true) : parseText fl [48, d] = none := by
+  have h1 : isWs 48 = false := by decide
+  have h2 : isWs d = false := by simp [isDigit] at hd; simp [isWs]; omega
+  have h3 : ¬ (d = 47) := by simp [isDigit] at hd; omega
+  have hnum := no_leading_zero d hd []
+  unfold parseText
+  simp only [skipWs, h1, Bool.false_eq_true, if_false, show (48:Nat) ≠ 47 by decide, decide_false, Bool.and_false]
+  simp only [List.length_cons, List.length_nil, parseValue, show (48:Nat) ≠ 123 by decide, show (48:Nat) ≠ 91 by decide,
+    show (48:Nat) ≠ 34 by decide, show (48:Nat) ≠ 116 by decide, show (48:Nat) ≠ 102 by decide, show (48:Nat) ≠ 110 by decide,
+    if_false, hnum, Option.map_some]
+  simp [skipWs, h2, h3]
+
+/-- a raw control character inside a string is never accepted -/
+theorem control_char_rejected (fuel : Nat) (c : Nat) (hc : c < 32) (rest : Bytes) : parseChars (fuel + 1) (c :: rest) = none := by
+  have : c ≠ 34 := by omega
+  simp [parseChars, this, hc]
+
+/-! ### the option flags relax exactly one construct each (kernel-evaluated instances, all four flag pairs) -/
+def fl (c t : Bool) : Flags := { comments := c, trailingComma := t, maxDepth := 1024 }
+def txt (s : String) : Bytes := s.toUTF8.toList.map (·.toNat)
+
+example : (parseText (fl false false) [91, 49, 44, 93]).isSome = false := by decide             -- [1,]
+example : (parseText (fl true false) [91, 49, 44, 93]).isSome = false := by decide
+example : (parseText (fl false true) [91, 49, 44, 93]).isSome = true := by decide
+example : (parseText (fl false true) [91, 44, 93]).isSome = false := by decide                  -- [,]
+example : (parseText (fl true false) [91, 49, 47, 42, 42, 47, 93]).isSome = true := by decide    -- [1/**/]
+example : (parseText (fl false false) [91, 49, 47, 42, 42, 47, 93]).isSome = false := by decide
+example : (parseText (fl true false) [123, 34, 97, 34, 58, 49, 44, 47, 42, 99, 42, 47, 125]).isSome = false := by decide  -- {"a":1,/*c*/}
+example : (parseText (fl true true) [123, 34, 97, 34, 58, 49, 44, 47, 42, 99, 42, 47, 125]).isSome = true := by decide
+-- nesting limit: depth 2 accepted at limit 2, depth 3 rejected
+example : (parseText { comments := false, trailingComma := false, maxDepth := 2 } [91, 91, 93, 93]).isSome = true := by decide
+example : (parseText { comments := false, trailingComma := false, maxDepth := 2 } [91, 91, 91, 93, 93, 93]).isSome = false := by decide
+-- escapes: a surrogate pair denotes one scalar, a lone surrogate none
+example : parseString [34, 92, 117, 100, 56, 51, 100, 92, 117, 100, 101, 48, 48, 34] = some ([240, 159, 152, 128], []) := by decide
+example : parseString [34, 92, 117, 100, 56, 51, 100, 34] = none := by decide
+
 end JV.Props.C02
